@@ -1,0 +1,18 @@
+//go:build !verif
+// +build !verif
+
+package verifhook
+
+// Sites of Yield calls.
+const (
+	SiteStreamRead = iota + 1
+	SiteStreamReadCopy
+	SiteStreamWrite
+	SiteStreamWriteAppend
+	SiteStreamReadAll
+	SiteStreamGetDataType
+	SiteExecuteProcess
+	SiteBeforeWaitForTermination
+	SiteDeregister
+	SiteScheduler
+)
